@@ -7,10 +7,12 @@ from .. import common as C
 from .. import impl
 from .. import solver
 
+EXTRA_LEAN_MODULES = ("Properties.C05Time",)
+
 PARTIAL = [
     "LSODA's own scale covariance (tolerances relative to y0, first step relative to the span, internal step selection) is a "
     "runtime fact: validated by paired real runs for k in [1e-16, 1e3], not proved; the theorems give degree-one homogeneity of "
-    "eval_rhs and rate invariance of every explicit one-step scheme (Euler and arbitrary explicit Runge-Kutta tableaux)",
+    "eval_rhs and rate invariance of every explicit one-step scheme (Euler and arbitrary explicit Runge-Kutta tableaux, autonomous and time-dependent histories)",
 ]
 ASSUMPTIONS = ["max |eig| of the strain rate is homogeneous of degree one (external eigvalsh; checked on every rhs evaluation compared)"]
 TRUSTED = ["harness/solver.py scenario driver"]
